@@ -203,3 +203,323 @@ Proof.
   rewrite score_terms_window by exact Hi.
   f_equal. exact (LMPwm.C10.C10_revcomp_mirror_terms F32.t PM.F32ops m s i Hs Hi).
 Qed.
+
+Lemma dna_comp_lt4 k : k < 4 -> GC.dna_comp k < 4.
+Proof. intros H. do 4 (destruct k as [|k]; [cbn; lia|]). lia. Qed.
+
+Lemma rc_seq_syms (s : list nat) :
+  Forall (fun x => x < GC.dna_K) s -> Forall (fun x => x < GC.dna_K) (PM.rc_seq GC.dna_comp s).
+Proof.
+  intros H. unfold PM.rc_seq. apply Forall_map. apply Forall_rev.
+  eapply Forall_impl; [|exact H]. intros k Hk.
+  exact (proj2 (LMPwm.C10.C10_complement_involutive k Hk)).
+Qed.
+
+Lemma rc_rows (m : list (list F32.t)) :
+  Forall (fun row : list F32.t => length row = GC.dna_K) (LMPwm.C10.dna_rc F32.zero m).
+Proof.
+  destruct (LMPwm.C10.C10_revcomp_is_reversal_and_complement F32.t F32.zero m) as (E & _).
+  rewrite E. unfold LMPwm.C10.dna_rc_spec, PM.rc_spec. apply Forall_map. apply Forall_forall.
+  intros row _. unfold PM.rc_row_spec. now rewrite map_length, seq_length.
+Qed.
+
+Lemma rc_finite (m : list (list F32.t)) :
+  Forall (fun row : list F32.t => length row = GC.dna_K) m ->
+  LMScan.DiscBridge.finite_nonwild GC.dna_K m ->
+  LMScan.DiscBridge.finite_nonwild GC.dna_K (LMPwm.C10.dna_rc F32.zero m).
+Proof.
+  intros Hrows Hfin.
+  destruct (LMPwm.C10.C10_revcomp_is_reversal_and_complement F32.t F32.zero m) as (E & _).
+  rewrite E. unfold LMScan.DiscBridge.finite_nonwild, LMPwm.C10.dna_rc_spec, PM.rc_spec in *.
+  apply Forall_map. apply Forall_rev.
+  rewrite Forall_forall in Hrows, Hfin. apply Forall_forall. intros row Hin.
+  specialize (Hrows row Hin). specialize (Hfin row Hin).
+  destruct row as [|a [|b [|c [|d [|e [|f rest]]]]]]; cbn in Hrows; try discriminate.
+  unfold LMDisc.DiscModel.nonwild in *. cbn in Hfin |- *.
+  inversion Hfin as [|? ? Ha H1]; subst. inversion H1 as [|? ? Hb H2]; subst.
+  inversion H2 as [|? ? Hc H3]; subst. inversion H3 as [|? ? Hd H4]; subst.
+  repeat constructor; assumption.
+Qed.
+
+(* scanning the reverse-complemented matrix over the reverse-complemented sequence: the hit at
+   position i' carries the cells of the mirrored window L-M-i' of the original pair, added in
+   the opposite order *)
+Lemma revcomp_scan (C : nat) (be : SA.backend) (old : SM.sseq) (sq : list nat)
+      (pssm : list (list F32.t)) (am : arm) (thr : F32.t) (B : nat) :
+  1 <= C -> SA.backend_typed C be = true -> SS.wf_matrix C (SM.mat old) ->
+  Forall (fun x => x < GC.dna_K) sq ->
+  1 <= length pssm -> Forall (fun row : list F32.t => length row = GC.dna_K) pssm ->
+  LMScan.DiscBridge.finite_nonwild GC.dna_K pssm ->
+  c08_main_clause GC.dna_K (LMPwm.C10.dna_rc F32.zero pssm) -> 1 <= B ->
+  exists H',
+    e2e_scan_syms GC.dna_K C be old (PM.rc_seq GC.dna_comp sq) (LMPwm.C10.dna_rc F32.zero pssm) am thr B = Ok H' /\
+    (forall i' x, In (i', x) H' <->
+       i' + length pssm <= length sq /\
+       F32.ge (fold_left F32.add (rev (SCO.score_terms F32.zero (GC.dna_K - 1) pssm sq
+                                         (length sq - length pssm - i'))) F32.zero) thr = true /\
+       x = fold_left F32.add (rev (SCO.score_terms F32.zero (GC.dna_K - 1) pssm sq
+                                     (length sq - length pssm - i'))) F32.zero) /\
+    NoDup (map fst H').
+Proof.
+  intros HC Hb Hwf Hsym HM Hrows Hfin Hmain HB.
+  destruct (LMPwm.C10.C10_revcomp_is_reversal_and_complement F32.t F32.zero pssm) as (_ & Hlen & _).
+  assert (Hl : length (PM.rc_seq GC.dna_comp sq) = length sq)
+    by (unfold PM.rc_seq; now rewrite map_length, rev_length).
+  assert (HK2 : 2 <= GC.dna_K) by (unfold GC.dna_K; lia).
+  assert (HMrc : 1 <= length (LMPwm.C10.dna_rc F32.zero pssm)) by (rewrite Hlen; exact HM).
+  destruct (syms_to_hits GC.dna_K C be old (PM.rc_seq GC.dna_comp sq) (LMPwm.C10.dna_rc F32.zero pssm) am thr B
+              HK2 HC Hb Hwf (rc_seq_syms sq Hsym) HMrc (rc_rows pssm) (rc_finite pssm Hrows Hfin) Hmain HB)
+    as (H' & Hs & Hin & Hnd).
+  exists H'. split; [exact Hs|]. split; [|exact Hnd].
+  intros i' x. rewrite Hin, Hlen, Hl. split.
+  - intros (Hi & Hg & Hx).
+    assert (Hi2 : (length sq - length pssm - i') + length pssm <= length sq) by lia.
+    pose proof (rc_score_def pssm sq (length sq - length pssm - i') Hsym Hi2) as E.
+    replace (length sq - length pssm - (length sq - length pssm - i')) with i' in E by lia.
+    rewrite E in Hg, Hx. auto.
+  - intros (Hi & Hg & Hx).
+    assert (Hi2 : (length sq - length pssm - i') + length pssm <= length sq) by lia.
+    pose proof (rc_score_def pssm sq (length sq - length pssm - i') Hsym Hi2) as E.
+    replace (length sq - length pssm - (length sq - length pssm - i')) with i' in E by lia.
+    rewrite E. auto.
+Qed.
+
+(* mirrored hits, when the binary32 window sums do not depend on the order of addition *)
+Lemma revcomp_mirror (C : nat) (be : SA.backend) (old : SM.sseq) (sq : list nat)
+      (pssm : list (list F32.t)) (am : arm) (thr : F32.t) (B : nat) :
+  1 <= C -> SA.backend_typed C be = true -> SS.wf_matrix C (SM.mat old) ->
+  Forall (fun x => x < GC.dna_K) sq ->
+  1 <= length pssm -> Forall (fun row : list F32.t => length row = GC.dna_K) pssm ->
+  LMScan.DiscBridge.finite_nonwild GC.dna_K pssm ->
+  c08_main_clause GC.dna_K pssm ->
+  c08_main_clause GC.dna_K (LMPwm.C10.dna_rc F32.zero pssm) -> 1 <= B ->
+  (forall i, i + length pssm <= length sq ->
+     fold_left F32.add (rev (SCO.score_terms F32.zero (GC.dna_K - 1) pssm sq i)) F32.zero =
+     SCO.score_def F32.add F32.zero (GC.dna_K - 1) pssm sq i) ->
+  exists H H',
+    e2e_scan_syms GC.dna_K C be old sq pssm am thr B = Ok H /\
+    e2e_scan_syms GC.dna_K C be old (PM.rc_seq GC.dna_comp sq) (LMPwm.C10.dna_rc F32.zero pssm) am thr B = Ok H' /\
+    forall i x, i + length pssm <= length sq ->
+      (In (i, x) H <-> In (length sq - length pssm - i, x) H').
+Proof.
+  intros HC Hb Hwf Hsym HM Hrows Hfin Hmain Hmain' HB Hord.
+  assert (HK2 : 2 <= GC.dna_K) by (unfold GC.dna_K; lia).
+  destruct (syms_to_hits GC.dna_K C be old sq pssm am thr B HK2 HC Hb Hwf Hsym HM Hrows Hfin Hmain HB)
+    as (H & Hs & Hin & _).
+  destruct (revcomp_scan C be old sq pssm am thr B HC Hb Hwf Hsym HM Hrows Hfin Hmain' HB)
+    as (H' & Hs' & Hin' & _).
+  exists H, H'. split; [exact Hs|]. split; [exact Hs'|].
+  intros i x Hi. rewrite Hin, Hin'.
+  replace (length sq - length pssm - (length sq - length pssm - i)) with i by lia.
+  rewrite (Hord i Hi). split.
+  - intros (_ & Hg & Hx). split; [lia|auto].
+  - intros (_ & Hg & Hx). auto.
+Qed.
+
+(* ---------- reverse complement of a TEXT ---------- *)
+
+From LMEncode Require EncodeModel GenAbc EncodeInst EncodeProofs C05.
+From LME2E Require Import E2EBridgeEncode.
+
+(* A<->T, C<->G on the upper-case letters, everything else unchanged *)
+Definition comp_byte (b : byte) : byte :=
+  match b with
+  | x41 => x54 | x54 => x41 | x43 => x47 | x47 => x43
+  | b' => b'
+  end.
+
+Definition text_rc (t : list byte) : list byte := map comp_byte (rev t).
+
+Lemma dna_str_bytes : EM.a_str GA.dna = [x41; x43; x54; x47; x4e].
+Proof. reflexivity. Qed.
+
+Lemma comp_byte_in_abc (b : byte) :
+  LMEncode.EncodeProofs.in_abc GA.dna b -> LMEncode.EncodeProofs.in_abc GA.dna (comp_byte b).
+Proof.
+  unfold LMEncode.EncodeProofs.in_abc. rewrite dna_str_bytes. simpl.
+  intros [<-|[<-|[<-|[<-|[<-|[]]]]]]; simpl; tauto.
+Qed.
+
+(* the complement table of coq/pwm (GenComplement, from abc.rs) is the byte complement read
+   through the alphabet string of coq/encode (GenAbc, from abc.rs) *)
+Lemma comp_table_consistent (x x' : nat) (b : byte) :
+  nth_error (EM.a_str GA.dna) x = Some b -> nth_error (EM.a_str GA.dna) x' = Some (comp_byte b) ->
+  x' = GC.dna_comp x.
+Proof.
+  rewrite dna_str_bytes. intros H H'.
+  do 5 (destruct x as [|x]; [inversion H; subst b; simpl in H';
+          do 5 (destruct x' as [|x']; [first [reflexivity|discriminate H']|]); destruct x'; discriminate H'|]).
+  destruct x; discriminate H.
+Qed.
+
+(* encoding the reverse-complemented text gives the reverse complement of the symbols *)
+Lemma encode_text_rc (p p' : EI.pipeline) (junk junk' : nat -> EM.sym) (t : list byte) (sq : list nat) :
+  encode_nat p GA.dna junk t = Ok sq ->
+  encode_nat p' GA.dna junk' (text_rc t) = Ok (PM.rc_seq GC.dna_comp sq).
+Proof.
+  intros Henc.
+  assert (HA : GA.dna = GA.dna \/ GA.dna = GA.protein) by now left.
+  destruct (encode_nat_ok GA.dna p junk t sq HA Henc) as (Hlen & Hsym & Hnth & _).
+  assert (Hacc : Forall (LMEncode.EncodeProofs.in_abc GA.dna) t).
+  { apply (encode_nat_accepts GA.dna p junk t (abc_ok_of GA.dna HA)). eauto. }
+  assert (Hacc' : Forall (LMEncode.EncodeProofs.in_abc GA.dna) (text_rc t)).
+  { unfold text_rc. apply Forall_map. apply Forall_rev. eapply Forall_impl; [|exact Hacc].
+    intros b. apply comp_byte_in_abc. }
+  destruct (proj2 (encode_nat_accepts GA.dna p' junk' (text_rc t) (abc_ok_of GA.dna HA)) Hacc') as (sq' & Henc').
+  rewrite Henc'. f_equal.
+  destruct (encode_nat_ok GA.dna p' junk' (text_rc t) sq' HA Henc') as (Hlen' & _ & Hnth' & _).
+  assert (Hl : length (text_rc t) = length t) by (unfold text_rc; now rewrite map_length, rev_length).
+  apply (nth_ext sq' (PM.rc_seq GC.dna_comp sq) 0 0).
+  - unfold PM.rc_seq. rewrite map_length, rev_length. lia.
+  - intros i Hi. rewrite Hlen', Hl in Hi.
+    assert (Hb : nth_error (text_rc t) i = Some (comp_byte (nth (length t - S i) t x00))).
+    { unfold text_rc. rewrite nth_error_map.
+      rewrite (nth_error_nth' (rev t) x00) by (rewrite rev_length; exact Hi).
+      rewrite rev_nth by exact Hi. reflexivity. }
+    destruct (Hnth' i _ Hb) as (x' & Hx' & Hs').
+    assert (Hb0 : nth_error t (length t - S i) = Some (nth (length t - S i) t x00))
+      by (apply nth_error_nth'; lia).
+    destruct (Hnth (length t - S i) _ Hb0) as (x & Hx & Hs).
+    rewrite (nth_error_nth sq' i 0 Hx').
+    unfold PM.rc_seq.
+    rewrite (nth_indep _ 0 (GC.dna_comp 0)) by (rewrite map_length, rev_length; lia).
+    rewrite map_nth, rev_nth by lia. rewrite Hlen.
+    rewrite (nth_error_nth sq (length t - S i) 0 Hx).
+    exact (comp_table_consistent x x' _ Hs Hs').
+Qed.
+
+(* the text pipeline on the reverse-complemented text and matrix *)
+Lemma revcomp_scan_text (C : nat) (p p' : EI.pipeline) (junk junk' : nat -> EM.sym) (text : list byte)
+      (be : SA.backend) (old : SM.sseq) (pssm : list (list F32.t)) (am : arm) (thr : F32.t) (B : nat) :
+  1 <= C -> SA.backend_typed C be = true -> SS.wf_matrix C (SM.mat old) ->
+  Forall (LMEncode.EncodeProofs.in_abc GA.dna) text ->
+  1 <= length pssm -> Forall (fun row : list F32.t => length row = GC.dna_K) pssm ->
+  LMScan.DiscBridge.finite_nonwild GC.dna_K pssm ->
+  c08_main_clause GC.dna_K (LMPwm.C10.dna_rc F32.zero pssm) -> 1 <= B ->
+  exists sq H',
+    encode_nat p GA.dna junk text = Ok sq /\ length sq = length text /\
+    encode_nat p' GA.dna junk' (text_rc text) = Ok (PM.rc_seq GC.dna_comp sq) /\
+    e2e_scan GA.dna C p' junk' (text_rc text) be old (LMPwm.C10.dna_rc F32.zero pssm) am thr B = Ok H' /\
+    (forall i' x, In (i', x) H' <->
+       i' + length pssm <= length sq /\
+       F32.ge (fold_left F32.add (rev (SCO.score_terms F32.zero (GC.dna_K - 1) pssm sq
+                                         (length sq - length pssm - i'))) F32.zero) thr = true /\
+       x = fold_left F32.add (rev (SCO.score_terms F32.zero (GC.dna_K - 1) pssm sq
+                                     (length sq - length pssm - i'))) F32.zero) /\
+    NoDup (map fst H').
+Proof.
+  intros HC Hb Hwf Htext HM Hrows Hfin Hmain HB.
+  assert (HA : GA.dna = GA.dna \/ GA.dna = GA.protein) by now left.
+  destruct (proj2 (encode_nat_accepts GA.dna p junk text (abc_ok_of GA.dna HA)) Htext) as (sq & Henc).
+  destruct (encode_nat_ok GA.dna p junk text sq HA Henc) as (Hlen & Hsym & _ & _).
+  pose proof (encode_text_rc p p' junk junk' text sq Henc) as Henc'.
+  destruct (LMPwm.C10.C10_revcomp_is_reversal_and_complement F32.t F32.zero pssm) as (_ & Hlenm & _).
+  assert (Hl : length (PM.rc_seq GC.dna_comp sq) = length sq)
+    by (unfold PM.rc_seq; now rewrite map_length, rev_length).
+  assert (Hacc' : Forall (LMEncode.EncodeProofs.in_abc GA.dna) (text_rc text)).
+  { apply (encode_nat_accepts GA.dna p' junk' (text_rc text) (abc_ok_of GA.dna HA)). eauto. }
+  assert (HMrc : 1 <= length (LMPwm.C10.dna_rc F32.zero pssm)) by (rewrite Hlenm; exact HM).
+  destruct (text_to_hits GA.dna C p' junk' (text_rc text) be old (LMPwm.C10.dna_rc F32.zero pssm)
+              HA HC Hb Hwf Hacc' HMrc (rc_rows pssm) (rc_finite pssm Hrows Hfin) Hmain am thr B HB)
+    as (sq' & H' & He' & _ & _ & Hs & Hin & Hnd).
+  rewrite Henc' in He'. inversion He'; subst sq'.
+  exists sq, H'. split; [exact Henc|]. split; [exact Hlen|]. split; [exact Henc'|]. split; [exact Hs|].
+  split; [|exact Hnd].
+  change (EM.a_K GA.dna) with GC.dna_K in Hin, Hsym.
+  intros i' x. rewrite Hin, Hlenm, Hl. split.
+  - intros (Hi & Hg & Hx).
+    assert (Hi2 : (length sq - length pssm - i') + length pssm <= length sq) by lia.
+    pose proof (rc_score_def pssm sq (length sq - length pssm - i') Hsym Hi2) as E.
+    replace (length sq - length pssm - (length sq - length pssm - i')) with i' in E by lia.
+    rewrite E in Hg, Hx. auto.
+  - intros (Hi & Hg & Hx).
+    assert (Hi2 : (length sq - length pssm - i') + length pssm <= length sq) by lia.
+    pose proof (rc_score_def pssm sq (length sq - length pssm - i') Hsym Hi2) as E.
+    replace (length sq - length pssm - (length sq - length pssm - i')) with i' in E by lia.
+    rewrite E. auto.
+Qed.
+
+Lemma revcomp_mirror_text (C : nat) (p p' : EI.pipeline) (junk junk' : nat -> EM.sym) (text : list byte)
+      (be : SA.backend) (old : SM.sseq) (pssm : list (list F32.t)) (am : arm) (thr : F32.t) (B : nat) :
+  1 <= C -> SA.backend_typed C be = true -> SS.wf_matrix C (SM.mat old) ->
+  Forall (LMEncode.EncodeProofs.in_abc GA.dna) text ->
+  1 <= length pssm -> Forall (fun row : list F32.t => length row = GC.dna_K) pssm ->
+  LMScan.DiscBridge.finite_nonwild GC.dna_K pssm ->
+  c08_main_clause GC.dna_K pssm ->
+  c08_main_clause GC.dna_K (LMPwm.C10.dna_rc F32.zero pssm) -> 1 <= B ->
+  exists sq H H',
+    encode_nat p GA.dna junk text = Ok sq /\
+    e2e_scan GA.dna C p junk text be old pssm am thr B = Ok H /\
+    e2e_scan GA.dna C p' junk' (text_rc text) be old (LMPwm.C10.dna_rc F32.zero pssm) am thr B = Ok H' /\
+    ((forall i, i + length pssm <= length sq ->
+        fold_left F32.add (rev (SCO.score_terms F32.zero (GC.dna_K - 1) pssm sq i)) F32.zero =
+        SCO.score_def F32.add F32.zero (GC.dna_K - 1) pssm sq i) ->
+     forall i x, i + length pssm <= length sq ->
+       (In (i, x) H <-> In (length sq - length pssm - i, x) H')).
+Proof.
+  intros HC Hb Hwf Htext HM Hrows Hfin Hmain Hmain' HB.
+  assert (HA : GA.dna = GA.dna \/ GA.dna = GA.protein) by now left.
+  destruct (revcomp_scan_text C p p' junk junk' text be old pssm am thr B HC Hb Hwf Htext HM Hrows Hfin Hmain' HB)
+    as (sq & H' & Henc & _ & _ & Hs' & Hin' & _).
+  destruct (text_to_hits GA.dna C p junk text be old pssm HA HC Hb Hwf Htext HM Hrows Hfin Hmain am thr B HB)
+    as (sq0 & H & He0 & _ & _ & Hs & Hin & _).
+  rewrite Henc in He0. inversion He0; subst sq0.
+  exists sq, H, H'. split; [exact Henc|]. split; [exact Hs|]. split; [exact Hs'|].
+  intros Hord i x Hi. change (EM.a_K GA.dna) with GC.dna_K in Hin. rewrite Hin, Hin'.
+  replace (length sq - length pssm - (length sq - length pssm - i)) with i by lia.
+  rewrite (Hord i Hi). split.
+  - intros (_ & Hg & Hx). split; [lia|auto].
+  - intros (_ & Hg & Hx). auto.
+Qed.
+
+(* ---------- Scanner = full binary32 scoring (any SIMD backend) + threshold ---------- *)
+
+From LMScore Require SimdModel GenAvx2 GenLane4.
+
+Lemma nth_error_map_seq {X} (f : nat -> X) (n i : nat) (x : X) :
+  nth_error (map f (seq 0 n)) i = Some x <-> i < n /\ x = f i.
+Proof.
+  rewrite nth_error_map. split.
+  - intros H. destruct (nth_error (seq 0 n) i) as [k|] eqn:E; [|discriminate].
+    assert (Hi : i < n). { rewrite <- (seq_length n 0). apply nth_error_Some. congruence. }
+    rewrite (nth_error_nth' (seq 0 n) 0) in E by (now rewrite seq_length).
+    rewrite seq_nth in E by exact Hi. inversion E; subst k. simpl in H. inversion H. auto.
+  - intros (Hi & ->). rewrite (nth_error_nth' (seq 0 n) 0) by (now rewrite seq_length).
+    rewrite seq_nth by exact Hi. reflexivity.
+Qed.
+
+Lemma scanner_equals_scoring (K : nat) (ops : list SA.op) (pssm : list (list F32.t))
+      (pads : nat -> list F32.t) (ar : LMScore.SimdModel.arm) (am : arm) (thr : F32.t) (B : nat) :
+  let sq := SA.last_seq [] ops in
+  2 <= K -> forallb (SA.op_typed 32) ops = true ->
+  Forall (fun x => x < K) sq ->
+  1 <= length pssm -> length pssm - 1 <= SA.wrap_after 0 ops -> length pssm <= length sq ->
+  Forall (fun row : list F32.t => length row = K) pssm ->
+  LMScan.DiscBridge.finite_nonwild K pssm -> c08_main_clause K pssm -> 1 <= B ->
+  exists st sc scores H,
+    SA.run K 32 SM.s_default ops = Ok st /\
+    SCO.score_with
+      (LMScore.SimdModel.dispatch_rows_into F32.add F32.zero LMScore.GenAvx2.dispatch_score_f32
+         LMScore.GenAvx2.avx2_permute_consts LMScore.GenAvx2.avx2_gather_consts LMScore.GenLane4.sse2_consts
+         K pssm pads ar) (LMScore.StripeBridge.of_stripe st) = Ok sc /\
+    SCO.generic_score F32.add F32.zero 32 pssm (LMScore.StripeBridge.of_stripe st) = Ok sc /\
+    SCO.sc_unstripe 32 sc = Ok scores /\
+    e2e_scan_history K 32 ops pssm am thr B = Ok H /\
+    (forall i x, In (i, x) H <-> nth_error scores i = Some x /\ F32.ge x thr = true) /\
+    NoDup (map fst H).
+Proof.
+  intros sq HK Ht Hsym HM Hw HL Hrows Hfin Hmain HB.
+  destruct (LMScore.C01History.C01_history_backends K ops pssm pads ar ltac:(lia) Ht Hsym Hrows HM Hw HL)
+    as (st & sc & Hrun & Hgen & _ & _ & Hdisp & Hun).
+  cbn [rbind] in Hun.
+  pose proof (history_scan K 32 ops (length ops) pssm am thr B) as Hh. cbv zeta in Hh.
+  rewrite firstn_all in Hh.
+  destruct (Hh HK ltac:(lia) Ht Hsym HM Hw Hrows Hfin Hmain HB)
+    as (st' & H & r & Hrun' & Hs & Hin & Hnd & _).
+  exists st, sc, (map (SCO.score_def F32.add F32.zero (K - 1) pssm sq) (seq 0 (length sq + 1 - length pssm))), H.
+  split; [exact Hrun|]. split; [exact Hdisp|]. split; [exact Hgen|]. split; [exact Hun|].
+  split; [exact Hs|]. split; [|exact Hnd].
+  intros i x. rewrite Hin, nth_error_map_seq. fold sq. split.
+  - intros (Hi & Hg & Hx). subst x. split; [split; [lia|reflexivity]|exact Hg].
+  - intros ((Hi & Hx) & Hg). subst x. split; [lia|]. split; [exact Hg|reflexivity].
+Qed.
